@@ -509,7 +509,7 @@ func normalizeEndpointMeta(s *Schema, app *sysl.Application, ep *sysl.Endpoint) 
 		}
 	}
 
-	if len(app.SourceContexts) > 0 {
+	if len(ep.SourceContexts) > 0 {
 		s.Src.Ep = append(s.Src.Ep, EndpointContext{
 			AppName: app.Name.Part,
 			EpName:  ep.Name,
